@@ -237,7 +237,12 @@ func RunParent(a ParentArgs) int {
 		workers = runtime.NumCPU()
 	}
 	var jobs []*job
-	if a.Replay != nil {
+	if a.Replay != nil && a.Replay.Kind == "offline" {
+		// a cross-level report: re-run the case at every level and join again
+		for _, l := range levels {
+			jobs = append(jobs, &job{spec: RunSpec{Flavour: a.Replay.Flavour}, level: l, n: 1, only: a.Replay.Case})
+		}
+	} else if a.Replay != nil {
 		jobs = append(jobs, &job{spec: RunSpec{Flavour: a.Replay.Flavour}, level: a.Replay.Level, n: 1, only: a.Replay.Case})
 		j.Levels = []int{a.Replay.Level}
 	} else {
@@ -322,7 +327,7 @@ func RunParent(a ParentArgs) int {
 	}
 	wg.Wait()
 
-	if off, ok := p.(Offline); ok && a.Replay == nil {
+	if off, ok := p.(Offline); ok && (a.Replay == nil || a.Replay.Kind == "offline") {
 		off.Offline(j)
 	}
 	if a.Replay == nil && len(j.Digests) < 2 && len(j.Violations) == 0 {
